@@ -48,7 +48,7 @@ def run(ck):
                "modules (1 per 3 programs), corpus shaders (40 per run; all in the thorough tier), recorded witnesses; distinct by "
                "source; non-trivial = the module has a helper function, a loop or more than one entry point")
     ck.trusted = ["Lean kernel", "axioms: propext, Classical.choice, Quot.sound", "IR contract as transcribed in Sem.IRValid / Sem.IRTyping", "Go harness"]
-    if not ck.prove(["Naga.Props.C09", "Naga.Props.RegKey"]):
+    if not ck.prove(["Naga.Props.C09", "Naga.Props.RegKey", "Naga.Props.GlobalInit"]):
         ck.tie_broken("theorems", "Naga.Props.C09 / Naga.Props.RegKey no longer check", str(ck.proof_failed))
     if ck.tier == "thorough":
         ck.leanchecker(["Naga.Props.C09"])
